@@ -298,7 +298,8 @@ pub fn select<const N: usize>(prop: &str, act: &Act, tr: &Trans) -> (Vec<(Proble
                 }
             }
             "C03" => {
-                if !tr.exp.panics {
+                // (a documented panic that really happens ends the panic-free history: nothing to judge)
+                if !(tr.exp.panics && tr.rec.panicked) {
                     for p in &tr.problems {
                         if matches!(p.kind, PKind::BadEvent | PKind::Leak | PKind::DeadReachable | PKind::Duplicate) {
                             sel.push((p.clone(), ""));
@@ -405,6 +406,12 @@ pub fn bfs_check<const N: usize>(prop: &str, o: &Opts, rep: &mut Report) {
                     }
                 }
                 probes.extend([Act::ToVec, Act::CloneBuf, Act::EqSelfClone, Act::EqSlice]);
+                // ranges the documentation rejects: if one is accepted after all, ownership must still hold
+                for rs in all_ranges(N) {
+                    if rs.resolve(st.len).is_err() {
+                        probes.push(Act::Drain(rs, Script::all_front(1), Fin::Drop));
+                    }
+                }
             }
             "C01" => {
                 probes.push(Act::IntoIter(Script::all_front(st.len + 1)));
